@@ -17,6 +17,7 @@ static Verdict run(const Case &c) {
         c2.cfg[0] = (c.c(0) ^ 0x2800) & 0xFFFF; c2.cfg[1] = (c.c(1) + 0x01020304) & 0xFFFFFFFFLL; c2.cfg[2] = (c.c(2) ^ 0x0F0F0F0FLL) & 0xFFFFFFFFLL;
         c2.cfg[3] = (c.c(3) + 0x00010001) & 0xFFFFFFFFLL; c2.cfg[5] = (c.c(5) + 1) & 0xFF; c2.cfg[6] = (c.c(6) + 0x0101) & 0xFFFF; c2.cfg[7] = -c.c(7) / 2 - 1;
         c2.cfg[11] = c.c(11) ^ 0x00FF00FF00FFLL;
+        if (c.c(10) != 0 && c.c(10) != 0xFFFFFFFFFFFFLL) c2.cfg[10] = c.c(10) ^ 0x0000FF00FF00LL;   // the platform may also change the hardware address
         for (size_t b = 0; b < c2.blobs.size(); b++) { for (auto &x : c2.blobs[b]) x = (uint8_t)(x + 1); if (b < 2) { if (c2.blobs[b].size() > 3) c2.blobs[b].resize(c2.blobs[b].size() - 2); else c2.blobs[b].push_back(0x5A); } }
         Mac m = {{2, 0xAA, 0, 0, 0, 1}};
         Mac own = mac_from_u64((uint64_t)c.c(10, 0x020000000001LL));
